@@ -34,10 +34,10 @@ text = """
 
 ## 12. Seeded changes: which check catches which change
 
-153 changes in four batches (2 + 2 + 2 + 3 per property), written by independent sub-agents that were given only the text of one property and a
+204 changes in five batches (2 + 2 + 2 + 3 + 3 per property), written by independent sub-agents that were given only the text of one property and a
 scratch worktree -- nothing from /verif. Each was confirmed in a scratch worktree (demo passes on the clean tree, fails with the
 change; the unedited suite still reports 851 passed) and is kept under `/verif/seeded/<id>/` (patch.diff, demo.py, notes.md,
-meta.json; suffix a,b = batch 1, c,d = batch 2, e,f = batch 3, g,h,i = batch 4). Patches that no longer applied after a `fix:` commit touched the
+meta.json; suffix a,b = batch 1, c,d = batch 2, e,f = batch 3, g,h,i = batch 4, j,k,l = batch 5). Patches that no longer applied after a `fix:` commit touched the
 same lines were ported by hand to the fixed tree with the same intent (`ported` in their meta.json). The last column is the result of the FINAL
 confirmation on `/repo` itself (`tools/confirm_seeds.sh`: `git -C /repo apply`, quick check of the property, `git -C /repo checkout -- .`), kept in
 `seeded/RESULTS.tsv`.
@@ -48,15 +48,22 @@ for `re.match`, C04f empty directories, C14f / C17e `str.replace` labels); batch
 dotted-boundary changes): 37 of 51 caught, 14 missed (C03g aliased from-import of a sub module, C03h sub module two levels below another subject, C03i / partial
 names, C07g import of the base package, C08i `re.IGNORECASE`, C10h empty counterpart tuple, C13g phantom parent nodes, C14g names beginning with `py`, C14h early loop
 exit in the layer lookup, C15g hash-seed dependence with nested objects, C16i padded names, C01i `sub modules of X ... anything`, C05i `re.search` with regex layers,
-C09h imports of ancestor packages). Every miss was a gap of the BOUNDED layer's input families while the proof side could only say `UNDECIDED` / `OUT-OF-SUBSET` /
+C09h imports of ancestor packages); batch 5 (three per property in different files: boundary inputs, argument types the signatures allow but nobody uses, pairs of features,
+odd names; no dotted-boundary and no match-vs-search changes): no clean first-sight count exists -- I read the authors' summaries while the first runs were still going and
+strengthened the bounded layer for the changes I expected to be missed before most of them had been run; six that had already run were indeed missed (C02l an internal import
+dropped by an external pattern in include mode, C05j / C14k a case-insensitive sort key next to a code-point bisect, C07j an alias on the importing side of an arrow, C07l non-ASCII
+component names, C14l a partial name whose dot became a wildcard, C11l a one-shot iterator as batch), and by my own reading about ten more would have been (should_only in the layer-rule
+vocabulary, an external named like a fragment of the root directory, glob texts ending in the separator, prefix-only regular expressions, sibling packages differing in case, several
+subjects of an 'anything' rule across hash seeds, the order of object layers, a dead pattern inside a batch of partial names, the module-object entry point with an empty tuple). Call it
+35 of 51. Every miss was a gap of the BOUNDED layer's input families while the proof side could only say `UNDECIDED` / `OUT-OF-SUBSET` /
 `CONTRACT-DRIFT` for the rewritten function (string-valued quantified goals are proved but never refuted by the solvers); each led to a stronger family
 (never to a weaker check): scanned projects with imports in every equivalent spelling (C01/C03/C14), tuple batches, regex / partial-name filters that match one
 module, nested subjects, empty directories, letter case, empty option tuples, imports to non-modules and of ancestor packages, padded names, redundant layer
 listings, an order-reversing renaming. What the misses of the first two batches taught: process-wide caches and objects re-used across calls (re-applied rule
 objects, one architecture object growing between rules, the same path rewritten, repeated scans in one and in fresh processes); imports between related modules and
 prefix-named siblings; namespace packages; doubled glob markers through the entry point; level-limited graphs under renaming; regexes that are verbatim module
-names; evaluations in the middle of a builder chain; undefined layers inside batches. Three sub-agents also reported quirks of the UNCHANGED tree; two were genuine
-defects inside a property's scope (F10b, F08a, section 11), the others lie outside every property's quantifier and are not claimed: an import of an excluded
+names; evaluations in the middle of a builder chain; undefined layers inside batches. Several sub-agents also reported quirks of the UNCHANGED tree; two were genuine
+defects inside a property's scope (F10b, F08a, F10c, section 11), the others lie outside every property's quantifier and are not claimed: an import of an excluded
 internal module re-appears as an external module with `exclude_external_libraries=False` or through `level_limit` flattening (C08 x C10 / C09 option
 combinations), and a regex layer whose pattern also matches its own descendants (`proj\\.api`) makes `should_not access_any_layer` pass (C05 requires layers
 that list unrelated modules).
